@@ -135,6 +135,9 @@ func runC15e2e(c *fw.Case) {
 	forceFull := false
 	for i := 0; i < nreq; i++ {
 		spec := s.genRequest(out)
+		if spec.Stop == 0 {
+			spec.Stop = s.H
+		}
 		if i == 0 || forceFull {
 			spec.Prod = true
 			spec.Final = s.cl.Head
